@@ -176,6 +176,31 @@ func (x *Exec) ident(e *ast.Ident, st *State) Value {
 	switch o := obj.(type) {
 	case *types.Var:
 		if v, ok := st.vars[o]; ok {
+			if reg := x.arrRegions[o]; reg != nil {
+				// a sliced local array: the region holds the live content as
+				// long as the variable itself was not assigned since
+				if av, isAr := v.(Ar); isAr {
+					if live, have := st.regs[reg]; have {
+						snap := st.regs[x.arrSnaps[o]]
+						same := len(snap) == len(av.Comp) && len(live) == len(av.Comp)
+						for i := 0; same && i < len(av.Comp); i++ {
+							same = snap[i] == av.Comp[i] || snap[i].String() == av.Comp[i].String()
+						}
+						if same {
+							av.Comp = live
+							return av
+						}
+						// the two copies diverged (e.g. merged separately at a
+						// join): the content is unknown
+						fr := make([]*Term, len(av.Comp))
+						for i, c := range av.Comp {
+							fr[i] = x.freshTerm(o.Name()+"$mix", c.S)
+						}
+						av.Comp = fr
+						return av
+					}
+				}
+			}
 			return v
 		}
 		if o.Parent() == o.Pkg().Scope() || o.Pkg() != x.pkg.Types {
@@ -877,8 +902,32 @@ func (x *Exec) arrayAsSlice(e ast.Expr, st *State, u *types.Array) (Sl, bool) {
 	}
 	// the array variable's content moves into the region; later direct reads of
 	// the variable go through the region (see ident/arrays)
-	st.regs[reg] = av.Comp
-	x.abstr["array "+v.Name()+" sliced: later direct writes to the array are not reflected in the slice"] = true
+	snap := x.arrSnaps[v]
+	if snap == nil {
+		snap = x.newRegion(v.Name() + "$snap")
+		x.arrSnaps[v] = snap
+	}
+	if _, have := st.regs[reg]; have {
+		// sliced before on this path: the region is the live copy (writes
+		// through the earlier slice landed there). If the variable itself was
+		// assigned since, the two copies diverged and the content is unknown.
+		same := len(st.regs[snap]) == len(av.Comp)
+		for i := 0; same && i < len(av.Comp); i++ {
+			same = st.regs[snap][i] == av.Comp[i] || st.regs[snap][i].String() == av.Comp[i].String()
+		}
+		if !same {
+			fr := make([]*Term, len(av.Comp))
+			for i, c := range av.Comp {
+				fr[i] = x.freshTerm(v.Name()+"$mix", c.S)
+			}
+			st.regs[reg] = fr
+			st.regs[snap] = av.Comp
+		}
+	} else {
+		st.regs[reg] = av.Comp
+		st.regs[snap] = av.Comp
+	}
+	x.abstr["array "+v.Name()+" sliced: later direct reads of the array variable see its value before slicing"] = true
 	return Sl{Reg: reg, Off: x.ar.idxC(0), Len: x.ar.idxC(u.Len()), Nil: False}, true
 }
 
@@ -1153,6 +1202,16 @@ func (x *Exec) store(l ast.Expr, v Value, st *State) {
 			return
 		}
 		st.vars[o] = v
+		if reg := x.arrRegions[o]; reg != nil {
+			// a sliced local array: earlier slices alias the variable, so the
+			// assignment is visible through them
+			if av, isAr := v.(Ar); isAr {
+				if live, have := st.regs[reg]; have && len(live) == len(av.Comp) {
+					st.regs[reg] = av.Comp
+					st.regs[x.arrSnaps[o]] = av.Comp
+				}
+			}
+		}
 	case *ast.IndexExpr:
 		x.storeIndex(l, v, st)
 	case *ast.SelectorExpr:
